@@ -452,6 +452,32 @@ Definition stream_walk (bs : list N) : option (list (list N) * list (list N)) :=
            end
   end.
 
+(* MDBMinimalShard::from_reader, the reader built on the walk: the header is checked; the records of the file section are
+   copied into the buffer (when asked to) and where each begins is noted; the end marker is appended; the same for the xorb
+   section, which is not even read when not asked for; the end marker again. *)
+Fixpoint offsets_from (pos : N) (blobs : list (list N)) : list N :=
+  match blobs with [] => [] | b :: r => pos :: offsets_from (pos + N.of_nat (length b)) r end.
+Record minimal := mkMin { mn_data : list N; mn_file_offsets : list N; mn_cas_offsets : list N; mn_cas_info_start : N }.
+Definition minimal_from_reader (bs : list N) (include_files include_cas : bool) : option minimal :=
+  match de_MDBShardFileHeader bs with
+  | None => None
+  | Some ((tag, _, _), r) =>
+      if negb (bytes_eqb tag MDB_SHARD_HEADER_TAG) then None
+      else match parse_all blob_file (fuel_of r) r with
+           | None => None
+           | Some (fl, r1) =>
+               let fkeep := if include_files then fl else [] in
+               let d1 := concat fkeep ++ file_bookend in
+               let start := N.of_nat (length d1) in
+               if include_cas then
+                 match parse_all blob_cas (fuel_of r1) r1 with
+                 | None => None
+                 | Some (cl, _) => Some (mkMin (d1 ++ concat cl ++ cas_bookend) (offsets_from 0 fkeep) (offsets_from start cl) start)
+                 end
+               else Some (mkMin (d1 ++ cas_bookend) (offsets_from 0 fkeep) [] start)
+           end
+  end.
+
 (* MDBShardFile::export_with_expiration: the bytes up to the footer offset, followed by the footer with a new expiry *)
 Definition ser_footer (ft : footer) : list N :=
   ser_MDBShardFileFooter (ft_version ft) (ft_file_info_offset ft) (ft_cas_info_offset ft) (ft_file_lookup_offset ft) (ft_file_lookup_num ft)
